@@ -30,6 +30,10 @@ pub enum Op {
         /// fault line appended to it (without that line the version is the valid base)
         #[serde(default)]
         faulty: Option<Faulty>,
+        /// a second faulty file of the same kind (same fault line at the same position): every
+        /// faulty file must be named then, and no other
+        #[serde(default)]
+        faulty2: Option<Faulty>,
         #[serde(default)]
         note: String,
     },
@@ -66,6 +70,9 @@ pub struct InputOverride {
 pub struct Faulty {
     pub path: String,
     pub line: String,
+    /// the fault line is the first line of the file (else: appended at the end)
+    #[serde(default)]
+    pub at_top: bool,
 }
 
 #[derive(Clone, Debug, Serialize, Deserialize, PartialEq, Eq, Default)]
@@ -308,6 +315,7 @@ pub struct Version {
     pub files: Vec<SrcFile>,
     pub bystanders: Vec<SrcFile>,
     pub faulty: Option<Faulty>,
+    pub faulty2: Option<Faulty>,
     pub note: String,
 }
 
@@ -444,7 +452,7 @@ impl HistExec {
 
     pub fn apply(&mut self, op_index: usize, op: &Op) {
         match op {
-            Op::Project { files, bystanders, outside, faulty, note } => {
+            Op::Project { files, bystanders, outside, faulty, faulty2, note } => {
                 let src = format!("{}/{}", self.proj(), src_dir_name(&self.layout));
                 if src_dir_name(&self.layout) != "." {
                     let _ = std::fs::remove_dir_all(&src);
@@ -465,7 +473,7 @@ impl HistExec {
                 for f in files {
                     self.ever_sources.insert(f.path.clone());
                 }
-                self.version = Version { files: files.clone(), bystanders: bystanders.clone(), faulty: faulty.clone(), note: note.clone() };
+                self.version = Version { files: files.clone(), bystanders: bystanders.clone(), faulty: faulty.clone(), faulty2: faulty2.clone(), note: note.clone() };
                 self.last_counters.clear();
                 self.last_calls = 0;
                 self.last_log.clear();
@@ -1026,18 +1034,41 @@ impl HistExec {
                 }
             }
         }
-        // the single faulty file must be named, and no other project file
+        // the faulty file(s) must be named, and no other project file
         if let Some(fy) = self.version.faulty.clone() {
+            let fys: Vec<Faulty> = std::iter::once(fy.clone()).chain(self.version.faulty2.clone()).collect();
             let k = fy.path.clone();
-            let in_scope = self.layout.src_file.is_none() || self.layout.src_file.as_deref() == Some(k.as_str());
-            // "exactly one file is faulty" means: without the fault line the project is accepted
+            let in_scope = self.layout.src_file.is_none() || (fys.len() == 1 && self.layout.src_file.as_deref() == Some(k.as_str()));
+            // "exactly these files are faulty" means: without the fault lines the project is
+            // accepted (and, for two, each fault alone already makes it rejected)
             let mut base_files = input_files(&self.version, &self.layout);
-            let mut is_single = false;
-            if let Some(f) = base_files.iter_mut().find(|f| f.path == k) {
-                if let Some(stripped) = f.text.strip_suffix(&fy.line) {
-                    f.text = stripped.to_string();
-                    let rb = reference(&base_files, self.annotate, &mut self.refs, &mut self.stats);
-                    is_single = rb.verdict == "ok";
+            let mut is_single = true;
+            for f_ in &fys {
+                match base_files.iter_mut().find(|f| f.path == f_.path) {
+                    Some(f) => {
+                        let stripped = if f_.at_top { f.text.strip_prefix(&f_.line).map(|s| s.to_string()) } else { f.text.strip_suffix(&f_.line).map(|s| s.to_string()) };
+                        match stripped {
+                            Some(t) => f.text = t,
+                            None => is_single = false,
+                        }
+                    }
+                    None => is_single = false,
+                }
+            }
+            if is_single {
+                let rb = reference(&base_files, self.annotate, &mut self.refs, &mut self.stats);
+                is_single = rb.verdict == "ok";
+            }
+            if is_single && fys.len() == 2 {
+                for f_ in &fys {
+                    let mut one = base_files.clone();
+                    if let Some(f) = one.iter_mut().find(|f| f.path == f_.path) {
+                        f.text = if f_.at_top { format!("{}{}", f_.line, f.text) } else { format!("{}{}", f.text, f_.line) };
+                    }
+                    let r1 = reference(&one, self.annotate, &mut self.refs, &mut self.stats);
+                    if r1.verdict != "err" {
+                        is_single = false;
+                    }
                 }
             }
             if in_scope && !is_single {
@@ -1079,21 +1110,26 @@ impl HistExec {
                 if !unique_base {
                     self.stats.same_base_name_checks += 1;
                 }
-                let kind = self.version.note.split(':').nth(1).unwrap_or("?").to_string();
+                let kind = if fys.len() == 2 { format!("two:{}", self.version.note.split(':').nth(1).unwrap_or("?")) } else { self.version.note.split(':').nth(1).unwrap_or("?").to_string() };
                 *self.stats.faulty_kinds_checked.entry(kind).or_insert(0) += 1;
-                let names_k = locs.iter().any(|l| named(l).as_deref() == Some(k.as_str()))
-                    || (unique_base && (locs.iter().any(|l| base(l) == kb) || res.diags.iter().any(|d| d.contains(&kb))));
-                if !names_k {
-                    v.push(Viol::new(
-                        "diagnostic_wrong_or_missing_file",
-                        step,
-                        format!("no diagnostic names the faulty file {k}; locations: {:?}", locs),
-                    ));
+                let faulty_paths: Vec<String> = fys.iter().map(|f| f.path.clone()).collect();
+                for k in &faulty_paths {
+                    let kb = base(k);
+                    let unique_base = all_paths.iter().filter(|p| base(p) == kb).count() == 1;
+                    let names_k = locs.iter().any(|l| named(l).as_deref() == Some(k.as_str()))
+                        || (unique_base && (locs.iter().any(|l| base(l) == kb) || res.diags.iter().any(|d| d.contains(&kb))));
+                    if !names_k {
+                        v.push(Viol::new(
+                            "diagnostic_wrong_or_missing_file",
+                            step,
+                            format!("no diagnostic names the faulty file {k}{}; locations: {:?}", if faulty_paths.len() > 1 { " (one of two faulty files)" } else { "" }, locs),
+                        ));
+                    }
                 }
                 for l in &locs {
                     if let Some(other) = named(l) {
-                        if other != k {
-                            v.push(Viol::new("diagnostic_wrong_or_missing_file", step, format!("a diagnostic points into {other} although only {k} is faulty")));
+                        if !faulty_paths.contains(&other) {
+                            v.push(Viol::new("diagnostic_wrong_or_missing_file", step, format!("a diagnostic points into {other} although only {:?} is faulty", faulty_paths)));
                             break;
                         }
                     }
